@@ -124,7 +124,8 @@ def check_case(acc, kind, arch, params, full=True, st=None, history=None):
     st = build_state(kind, arch, params) if st is None else st
     n = arch[0]
     D = 2 ** n
-    space = tbits(n)
+    from ..common import space_of
+    space = space_of(st, n)
     bases = G.all_bases(n, kind)
     named = named_params(st)
     leaves = G.make_leaves(named)
